@@ -172,3 +172,12 @@ func FuzzC08(f *testing.F)     { fuzzRapid(f, "C08", "fuzz-control", "TestC08", 
 func FuzzC12(f *testing.F)     { fuzzRapid(f, "C12", "fuzz-serverhandshake", "TestC12", genServerHSCase, checkC12) }
 func FuzzC13(f *testing.F)     { fuzzRapid(f, "C13", "fuzz-origin", "TestC13", genOriginCase, checkC13) }
 func FuzzC14(f *testing.F)     { fuzzRapid(f, "C14", "fuzz-clienthandshake", "TestC14", genClientHSCase, checkC14) }
+
+// C11's last clause (sharing one PreparedMessage / one write buffer pool among
+// many connections is race-free) reuses the concurrent legs of C19 and C20.
+func TestC11SharedPrepared(t *testing.T) {
+	RunProp(t, "C11", "shared-prepared-message", func(rt *rapid.T) PrepCase { return genPrepCase(rt, true) }, checkC19)
+}
+func TestC11SharedPool(t *testing.T) {
+	RunProp(t, "C11", "shared-pool", func(rt *rapid.T) PoolCase { c := genPoolCase(rt); c.Conc = true; return c }, checkC20)
+}
